@@ -519,7 +519,7 @@ fn c03(ctx: &mut Ctx) {
     let n = ctx.n(2, 10);
     let muts: Vec<M> = PROOF.iter().chain(SHAPE).chain(&[M::L, M::R]).cloned().collect();
     mutation_run(ctx, "C03", "proof", &muts, n, true, true);
-    d7(ctx, "C03");
+    d7(ctx, "C03", true);
     forged(ctx, "C03", ctx.n(1, 6));
     batch_runs(ctx, "C03", ctx.n(1, 6), true);
 }
@@ -534,12 +534,12 @@ fn c10(ctx: &mut Ctx) {
 // D7: proof made with the key trimmed to a smaller size
 // ------------------------------------------------------------------------------------------------
 
-fn d7(ctx: &mut Ctx, prop: &str) {
+fn d7(ctx: &mut Ctx, prop: &str, singles: bool) {
     let pairs: &[(usize, usize)] = if ctx.thorough { &[(1, 3), (3, 15), (1, 15), (3, 7), (7, 31), (7, 15), (0, 1), (0, 7)] } else { &[(1, 3), (3, 15), (3, 7), (0, 1), (1, 7)] };
     for (i, &(small, big)) in pairs.iter().enumerate() {
         for hid in [false, true] {
             let id = format!("{}/ipa-model/d7/{}-{}-{}", prop, small, big, hid as u8);
-            if !ctx.selected(&id) {
+            if !singles || !ctx.selected(&id) {
                 continue;
             }
             let mut rng = rng_for(ctx.seed, &format!("{}/ipa-model/d7", prop), (i * 2 + hid as usize) as u64);
@@ -729,7 +729,9 @@ fn batch_verdict(ctx: &mut Ctx, rng: &mut Rng, id: &str, c: &Case, cs: &[CommS],
 fn batch_runs(ctx: &mut Ctx, prop: &str, per_degree: usize, shapes: bool) {
     let mut k = 0u64;
     for &req in degrees(ctx) {
-        for v in 0..per_degree {
+        // the large key sizes dominate the cost: half as many batches there in the quick tier
+        let per = if !ctx.thorough && req >= 15 { (per_degree / 2).max(1) } else { per_degree };
+        for v in 0..per {
             k += 1;
             let id0 = format!("{}/ipa-model/batch/{}/{}", prop, req, v);
             if !ctx.selected(&id0) {
@@ -938,7 +940,7 @@ impl NextU32 for Rng {
 
 fn c05(ctx: &mut Ctx) {
     batch_runs(ctx, "C05", ctx.n(2, 8), true);
-    d7(ctx, "C05");
+    d7(ctx, "C05", false);
 }
 
 // ------------------------------------------------------------------------------------------------
